@@ -50,7 +50,9 @@ def decTheirRpc (j : Json) : Except String TheirRpc := do
   pure { nonce := ← gS j "nonce", auctionType := ← gN j "auctionType", duration := ← gN j "duration",
          rate := ← gN j "rate", selfChanBalance := ← gN j "selfChanBalance", chanType := ← gI j "chanType",
          nodeKey := ← gS j "nodeKey", multiSigKey := ← gS j "multiSigKey", unitsFilled := ← gN j "unitsFilled",
-         version := (j.getObjValAs? Nat "version").toOption.getD 6 }
+         version := (j.getObjValAs? Nat "version").toOption.getD 6,
+         nodeKeyEnc := (j.getObjValAs? Nat "nodeKeyEnc").toOption.getD 0,
+         multiSigKeyEnc := (j.getObjValAs? Nat "multiSigKeyEnc").toOption.getD 0 }
 
 def decMatchedRpc (j : Json) : Except String MatchedRpc := do
   pure { nonce := ← gS j "nonce", asks := ← (← gL j "asks").mapM decTheirRpc,
